@@ -52,6 +52,10 @@ type Run struct {
 	start time.Time
 
 	mu           sync.Mutex
+	wdMu         sync.Mutex
+	inflight     map[int64]inflight
+	wdNext       int64
+	Floor        int // minimum of distinct non-trivial cases (set by the driver; used when the watchdog ends the run)
 	evals        int64
 	distinct     map[uint64]struct{}
 	samples      []any
@@ -192,6 +196,8 @@ func (r *Run) Violation(class string, c *Case, expected, observed string) {
 // Guard runs f; a panic of the code under test is recorded as a violation of the running property (whatever the
 // property demands, the call produced neither a result nor an error) instead of killing the harness.
 func (r *Run) Guard(c *Case, f func()) {
+	id := r.enterCase(c)
+	defer r.leaveCase(id)
 	defer func() {
 		if rec := recover(); rec != nil {
 			msg := fmt.Sprint(rec)
@@ -212,6 +218,63 @@ func (r *Run) Guard(c *Case, f func()) {
 		}
 	}()
 	f()
+}
+
+// ---- watchdog: a call of the code under test that never returns must not hang the check ----
+//
+// Every guarded case is registered while it runs. A background goroutine looks at the register every few seconds;
+// a case that has been running for WatchdogLimit (wall clock, default 15 minutes - the cases are sized to take
+// milliseconds to seconds, so this is a factor 10^3..10^6) is reported as a violation of the running property
+// ("neither a result nor an error"), the evidence is written and the process exits 1: a goroutine stuck inside the
+// code under test cannot be stopped any other way. Where a logical step budget exists (C08, C19) it fires long
+// before this does.
+var WatchdogLimit = 15 * time.Minute
+
+type inflight struct {
+	c     *Case
+	start time.Time
+}
+
+func (r *Run) enterCase(c *Case) int64 {
+	r.wdMu.Lock()
+	defer r.wdMu.Unlock()
+	if r.inflight == nil {
+		r.inflight = map[int64]inflight{}
+		go r.watchdog()
+	}
+	r.wdNext++
+	r.inflight[r.wdNext] = inflight{c, time.Now()}
+	return r.wdNext
+}
+
+func (r *Run) leaveCase(id int64) {
+	r.wdMu.Lock()
+	delete(r.inflight, id)
+	r.wdMu.Unlock()
+}
+
+func (r *Run) watchdog() {
+	for {
+		time.Sleep(5 * time.Second)
+		var stuck *Case
+		var age time.Duration
+		r.wdMu.Lock()
+		for _, f := range r.inflight {
+			if d := time.Since(f.start); d > WatchdogLimit && d > age {
+				stuck, age = f.c, d
+			}
+		}
+		r.wdMu.Unlock()
+		if stuck != nil {
+			r.Violation("call-did-not-return", stuck, "a result or an error", fmt.Sprintf("the case has been running for %s (wall-clock watchdog; such cases take milliseconds to seconds)", age.Round(time.Second)))
+			r.Note("watchdog fired: the run was cut short, counts are partial")
+			code := r.Finish(r.Floor)
+			if code == 0 {
+				code = 1
+			}
+			os.Exit(code)
+		}
+	}
 }
 
 func (r *Run) NumViolations() int {
